@@ -263,6 +263,11 @@ def family_basic(tier='quick', seed=0, dead_ends=False):
     return F
 
 
+def basic(name):
+    """a skeleton of the basic family by NAME (positions change when the family grows)"""
+    return [s for s in family_basic('thorough') if s.name == name][0]
+
+
 def family_undiscounted(tier='quick'):
     F = []
     # trap: state 't' can never reach the goal (self-loop with reward leaf), 's' can go to goal or trap
